@@ -44,16 +44,8 @@ func resolveValue(v ssa.Value) ssa.Value {
 		case *ssa.UnOp:
 			if x.Op == token.MUL {
 				if a, ok := x.X.(*ssa.Alloc); ok {
-					var st *ssa.Store
-					n := 0
-					for _, r := range *a.Referrers() {
-						if s, ok := r.(*ssa.Store); ok && s.Addr == ssa.Value(a) {
-							st = s
-							n++
-						}
-					}
-					if n == 1 {
-						v = st.Val
+					if sv := onceStored(a); sv != nil {
+						v = sv
 						continue
 					}
 				}
@@ -62,6 +54,58 @@ func resolveValue(v ssa.Value) ssa.Value {
 		break
 	}
 	return v
+}
+
+// onceStored returns the value stored into a local cell that is written exactly once and otherwise only read
+// (directly or through element/field addresses); nil if the cell is written elsewhere or its address escapes.
+func onceStored(a *ssa.Alloc) ssa.Value {
+	var val ssa.Value
+	n := 0
+	ok := true
+	var readOnly func(x ssa.Value)
+	readOnly = func(x ssa.Value) {
+		for _, r := range *x.Referrers() {
+			switch y := r.(type) {
+			case *ssa.UnOp:
+				if y.Op != token.MUL {
+					ok = false
+				}
+			case *ssa.FieldAddr:
+				readOnly(y)
+			case *ssa.IndexAddr:
+				readOnly(y)
+			case *ssa.DebugRef:
+			default:
+				ok = false
+			}
+		}
+	}
+	for _, r := range *a.Referrers() {
+		switch y := r.(type) {
+		case *ssa.Store:
+			if y.Addr == ssa.Value(a) {
+				val = y.Val
+				n++
+			} else {
+				ok = false
+			}
+		case *ssa.UnOp:
+			if y.Op != token.MUL {
+				ok = false
+			}
+		case *ssa.FieldAddr:
+			readOnly(y)
+		case *ssa.IndexAddr:
+			readOnly(y)
+		case *ssa.DebugRef:
+		default:
+			ok = false
+		}
+	}
+	if n != 1 || !ok {
+		return nil
+	}
+	return val
 }
 
 // elementOf recognises v as element k of an array value: Index(x, k), or a load of IndexAddr(alloc, k) where the
@@ -80,16 +124,8 @@ func elementOf(v ssa.Value) (ssa.Value, int64, bool) {
 		if ia, ok := x.X.(*ssa.IndexAddr); ok {
 			if k, ok := ia.Index.(*ssa.Const); ok && k.Value != nil {
 				if a, ok := ia.X.(*ssa.Alloc); ok {
-					var st *ssa.Store
-					n := 0
-					for _, r := range *a.Referrers() {
-						if s, ok := r.(*ssa.Store); ok && s.Addr == ssa.Value(a) {
-							st = s
-							n++
-						}
-					}
-					if n == 1 {
-						return resolveValue(st.Val), k.Int64(), true
+					if sv := onceStored(a); sv != nil {
+						return resolveValue(sv), k.Int64(), true
 					}
 				}
 			}
